@@ -372,6 +372,136 @@ def parse_asm(text):
     return items
 
 
+# ------------------------------------------------------------------ operands evaluated independently of skoolkit's evaluator
+# The image that "assembling skool2asm's output" yields must not be computed by the very evaluator skool2bin uses (a defect
+# in it would cancel out).  Operands in the unambiguous sub-language  [sign] term {(+|-|*) term},  term = decimal | $hex |
+# %binary | "c"  are evaluated here and given to the instruction encoder as plain decimal numbers; anything else (division,
+# modulo, parentheses inside an expression, strings, registers) is left to the encoder as it is.
+_EV_TOK = re.compile(r'\s*(\$[0-9A-Fa-f]+|%[01]+|\d+|"(?:\\.|[^"\\])"|[+\-*])')
+
+
+def ev(expr):
+    toks, pos = [], 0
+    expr = expr.strip()
+    while pos < len(expr):
+        m = _EV_TOK.match(expr, pos)
+        if not m:
+            return None
+        toks.append(m.group(1))
+        pos = m.end()
+        while pos < len(expr) and expr[pos].isspace():
+            pos += 1
+    if not toks:
+        return None
+    sign = 1
+    if toks[0] in '+-' and len(toks) > 1:
+        sign = -1 if toks[0] == '-' else 1
+        toks = toks[1:]
+    if len(toks) % 2 == 0:
+        return None
+    vals, ops = [], []
+    for i, t in enumerate(toks):
+        if i % 2:
+            if t not in ('+', '-', '*'):
+                return None
+            ops.append(t)
+        elif t[0] == '$':
+            vals.append(int(t[1:], 16))
+        elif t[0] == '%':
+            vals.append(int(t[1:], 2))
+        elif t[0] == '"':
+            vals.append(ord(t[2] if t[1] == '\\' else t[1]))
+        elif t.isdigit():
+            vals.append(int(t))
+        else:
+            return None
+    vals[0] *= sign
+    # products first
+    v2, o2 = [vals[0]], []
+    for o, v in zip(ops, vals[1:]):
+        if o == '*':
+            v2[-1] *= v
+        else:
+            o2.append(o)
+            v2.append(v)
+    total = v2[0]
+    for o, v in zip(o2, v2[1:]):
+        total = total + v if o == '+' else total - v
+    return total if 0 <= total < 65536 else None
+
+
+def split_operands(rest):
+    out, cur, q, depth, i = [], '', False, 0, 0
+    while i < len(rest):
+        c = rest[i]
+        if q:
+            cur += c
+            if c == '\\' and i + 1 < len(rest):
+                cur += rest[i + 1]
+                i += 1
+            elif c == '"':
+                q = False
+        elif c == '"':
+            q = True
+            cur += c
+        elif c == '(':
+            depth += 1
+            cur += c
+        elif c == ')':
+            depth -= 1
+            cur += c
+        elif c == ',' and depth == 0:
+            out.append(cur)
+            cur = ''
+        else:
+            cur += c
+        i += 1
+    out.append(cur)
+    return out
+
+
+def _outer_parens(o):
+    if not (o.startswith('(') and o.endswith(')')):
+        return False
+    depth = 0
+    for i, c in enumerate(o):
+        depth += c == '('
+        depth -= c == ')'
+        if depth == 0 and i < len(o) - 1:
+            return False
+    return True
+
+
+def normalise(text):
+    """the same statement with every operand of the unambiguous sub-language replaced by its decimal value"""
+    op, sp, rest = text.strip().partition(' ')
+    if not rest.strip():
+        return text
+    if '"' in rest and rest.count('"') % 2 and '\\' not in rest:
+        return text
+    outs = []
+    for o in split_operands(rest):
+        t = o.strip()
+        m = re.fullmatch(r'\((I[XY])\s*([+-])(.*)\)', t, re.I)
+        if m:
+            v = ev(m.group(3))
+            outs.append('(%s%s%d)' % (m.group(1), m.group(2), v) if v is not None and v < 256 else t)
+        elif _outer_parens(t):
+            v = ev(t[1:-1])
+            outs.append('(%d)' % v if v is not None else t)
+        else:
+            v = ev(t)
+            outs.append(str(v) if v is not None else t)
+    return '%s %s' % (op, ','.join(outs))
+
+
+def assemble_indep(assembler, text, addr):
+    """bytes of one statement: operands by ev(), encoding by the instruction encoder (fallback: the statement as it is)"""
+    n = normalise(text)
+    data = assembler.assemble(n, addr) if n != text else None
+    return data or assembler.assemble(text, addr) or ()
+
+
 def subst(op, symbols, default=None):
     """replace every identifier that is a symbol by its value (default: the value used while sizes are measured)"""
     out = []
@@ -420,7 +550,7 @@ def resolve(text, assembler):
                 return [], [], 'label defined twice: ' + it[1]
             symbols[it[1]] = addr
         else:
-            size = len(assembler.assemble(subst(it[1], symbols, addr), addr) or ())
+            size = len(assemble_indep(assembler, subst(it[1], symbols, addr), addr))
             if not size:
                 return [], [], 'cannot assemble %r' % it[1]
             addr += size
@@ -431,7 +561,7 @@ def resolve(text, assembler):
         if it[0] == 'org':
             addr = number(it[1])
         elif it[0] == 'ins':
-            data = assembler.assemble(subst(it[1], symbols), addr) or ()
+            data = assemble_indep(assembler, subst(it[1], symbols), addr)
             if not data or any(not 0 <= b < 256 for b in data):
                 return [], [], 'cannot assemble %r' % it[1]
             for i, b in enumerate(data):
@@ -591,7 +721,9 @@ FIXED = ('BIT 7,A', 'RES 0,(HL)', 'SET 3,B', 'IM 0', 'IM 1', 'IM 2', 'RST 0', 'R
          'DEFW "a"', 'DEFW %1111111100000000', 'LD HL,"a"*256', 'DEFB 1, 2 ,3', 'DEFB  5', 'DEFM "(1)",1', 'DEFB "1","2",3',
          'LD B,"0"+1', 'DEFB 10/3,10%3', 'DEFW 1+2*3', 'DEFB (1+2)*3', 'LD A,(1+2)', 'LD A,+1', 'DEFB +7', 'AND %11110000',
          'OR "a"', 'RST %1000', 'IN A,($FE)', 'OUT (254),A', 'IM  1', 'BIT  7 , A', 'ld ixl,$1f', 'defm "MiXed"', 'DEFB $aB,$Cd',
-         'LD DE,$abcd', 'JP $0008', 'CALL 56', 'DEFS 4,%101', 'DEFS $02', 'DEFB "a"-"A"', 'LD (IY+%101),1', 'BIT 0,(IX+"1")')
+         'LD DE,$abcd', 'JP $0008', 'CALL 56', 'DEFS 4,%101', 'DEFS $02', 'DEFB "a"-"A"', 'LD (IY+%101),1', 'BIT 0,(IX+"1")',
+         'DEFM "Hi"," "+128', 'DEFB " "+1', 'DEFS 2," "+$80', 'LD A," "+1', 'DEFW " "*256', 'DEFB "a" + 1', 'DEFM "a b"," "', 'CP " "+%1',
+         'DEFB ","+1,","', 'DEFB ";"+1', 'LD HL,"("*2', 'DEFB "\\\\"+1')
 
 
 def spell(rnd, v):
@@ -696,7 +828,7 @@ class G2:
             text = self.disassembled(at, addrs) if self.rnd.random() < 0.5 else self.spelt(at, addrs)
             if '"' in text and text.count('"') % 2:
                 continue
-            data = self.asm.assemble(text, at) or ()
+            data = assemble_indep(self.asm, text, at)
             if not data or any(not 0 <= b < 256 for b in data):
                 continue
             if at + len(data) > 65536 or (size is not None and len(data) != size):
